@@ -22,6 +22,10 @@ MONITORS = [LedgerMonitor, AccountingMonitor]
 
 
 def generate(rng, i, tier):
+    if rng.random() < 0.06:
+        from .. import livegen
+
+        return livegen.gen_cancel_race(rng)
     if rng.random() < 0.25:
         from .. import livegen
 
